@@ -16,32 +16,32 @@ import (
 )
 
 type (
-	IP         = net.IP
-	IPMask     = net.IPMask
-	IPNet      = net.IPNet
-	Addr       = net.Addr
-	UDPAddr    = net.UDPAddr
-	TCPAddr    = net.TCPAddr
-	IPAddr     = net.IPAddr
-	Error      = net.Error
-	OpError    = net.OpError
-	AddrError  = net.AddrError
-	Conn       = net.Conn
-	PacketConn = net.PacketConn
-	Listener   = net.Listener
-	Interface  = net.Interface
-	Flags      = net.Flags
+	IP           = net.IP
+	IPMask       = net.IPMask
+	IPNet        = net.IPNet
+	Addr         = net.Addr
+	UDPAddr      = net.UDPAddr
+	TCPAddr      = net.TCPAddr
+	IPAddr       = net.IPAddr
+	Error        = net.Error
+	OpError      = net.OpError
+	AddrError    = net.AddrError
+	Conn         = net.Conn
+	PacketConn   = net.PacketConn
+	Listener     = net.Listener
+	Interface    = net.Interface
+	Flags        = net.Flags
 	HardwareAddr = net.HardwareAddr
 )
 
 var (
-	ErrClosed        = net.ErrClosed
-	IPv4zero         = net.IPv4zero
-	IPv4bcast        = net.IPv4bcast
-	IPv4allsys       = net.IPv4allsys
-	IPv6zero         = net.IPv6zero
-	IPv6unspecified  = net.IPv6unspecified
-	IPv6loopback     = net.IPv6loopback
+	ErrClosed       = net.ErrClosed
+	IPv4zero        = net.IPv4zero
+	IPv4bcast       = net.IPv4bcast
+	IPv4allsys      = net.IPv4allsys
+	IPv6zero        = net.IPv6zero
+	IPv6unspecified = net.IPv6unspecified
+	IPv6loopback    = net.IPv6loopback
 )
 
 const (
@@ -49,21 +49,23 @@ const (
 	IPv6len = net.IPv6len
 )
 
-func ParseIP(s string) IP                                  { return net.ParseIP(s) }
-func IPv4(a, b, c, d byte) IP                              { return net.IPv4(a, b, c, d) }
-func IPv4Mask(a, b, c, d byte) IPMask                      { return net.IPv4Mask(a, b, c, d) }
-func CIDRMask(ones, bits int) IPMask                       { return net.CIDRMask(ones, bits) }
-func ParseCIDR(s string) (IP, *IPNet, error)               { return net.ParseCIDR(s) }
-func JoinHostPort(h, p string) string                      { return net.JoinHostPort(h, p) }
-func SplitHostPort(hp string) (string, string, error)      { return net.SplitHostPort(hp) }
+func ParseIP(s string) IP                             { return net.ParseIP(s) }
+func IPv4(a, b, c, d byte) IP                         { return net.IPv4(a, b, c, d) }
+func IPv4Mask(a, b, c, d byte) IPMask                 { return net.IPv4Mask(a, b, c, d) }
+func CIDRMask(ones, bits int) IPMask                  { return net.CIDRMask(ones, bits) }
+func ParseCIDR(s string) (IP, *IPNet, error)          { return net.ParseCIDR(s) }
+func JoinHostPort(h, p string) string                 { return net.JoinHostPort(h, p) }
+func SplitHostPort(hp string) (string, string, error) { return net.SplitHostPort(hp) }
 func ResolveUDPAddr(network, address string) (*UDPAddr, error) {
 	return net.ResolveUDPAddr(network, address) // literal addresses only: no lookups happen
 }
 func ResolveTCPAddr(network, address string) (*TCPAddr, error) {
 	return net.ResolveTCPAddr(network, address)
 }
-func Interfaces() ([]Interface, error)       { return nil, nil }
-func InterfaceAddrs() ([]Addr, error)        { return []Addr{&IPNet{IP: IPv4(127, 0, 0, 1), Mask: CIDRMask(8, 32)}}, nil }
+func Interfaces() ([]Interface, error) { return nil, nil }
+func InterfaceAddrs() ([]Addr, error) {
+	return []Addr{&IPNet{IP: IPv4(127, 0, 0, 1), Mask: CIDRMask(8, 32)}}, nil
+}
 func InterfaceByName(string) (*Interface, error) { return nil, fmt.Errorf("vnet: no interfaces") }
 
 type world struct {
@@ -278,7 +280,7 @@ func (c *UDPConn) SetReadBuffer(int) error  { return nil }
 func (c *UDPConn) SetWriteBuffer(int) error { return nil }
 
 // Pending reports the number of queued datagrams (harness oracle).
-func (c *UDPConn) Pending() int { return len(c.q) }
+func (c *UDPConn) Pending() int   { return len(c.q) }
 func (c *UDPConn) IsClosed() bool { return c.closed }
 
 // ---------------------------------------------------------------- TCP
